@@ -11,6 +11,7 @@ stated over the mapper model and lives with C01.
 import X86Model.Proofs.Tlb
 import X86Model.Proofs.Regs
 import X86Model.Properties.C16
+import X86Model.Spec.AsmOptions
 
 namespace X86.C11
 open X86 X86.Spec X86.Tlb X86.Regs X86.Consts
@@ -287,5 +288,21 @@ example : encReq 2097152 (some 0xabc) (some 0x12) true false true (0xffff8000002
     = (0xffff80000020002f, 0x80000005, 0x0abc0012) := by decide
 example : invlpgbRangeOk 4096 0x7fffffffe000 0xffff800000001000 7 (optsOf none none false false false)
     [(0x7fffffffe001, 2, 0), (0xffff800000000001, 1, 0)] = true := by decide
+
+/-! ### The `asm!` blocks behind this property (re-extracted from the source on every run)
+
+`Generated.asmSites` is rewritten by `translator/gen_asm.py` from the `asm!` invocations of the
+crate; the theorems below are re-checked by the kernel against what the source says now. They
+constrain what the compiler may do with the blocks (delete, merge, hoist, reorder memory accesses
+across them) — behaviour that only shows in particular build profiles. -/
+
+/-- Every `asm!` block of the files this property is anchored in carries only options its
+instructions admit (`Spec/AsmOptions.lean`): no `pure` on instructions with side effects, no
+`nomem`/`readonly` where the hardware dereferences the operand, no `nostack` on pushes/pops. -/
+theorem asm_options_admissible :
+    ∀ s ∈ Spec.AsmOptions.sitesOfFiles ["src/instructions/tlb.rs"], Spec.AsmOptions.admissible s = true := by
+  decide +kernel
+
+example : (Spec.AsmOptions.sitesOfFiles ["src/instructions/tlb.rs"]).length > 0 := by decide +kernel
 
 end X86.C11
